@@ -243,6 +243,46 @@ theorem notify_once (aw : Bool) (ops : List Seq.Op) : CountsExact (Seq.run { aw 
         · rw [reload_same s h']; exact ⟨hl, hc⟩
       · exact ⟨hl, hc⟩
 
+/-- **watcher_applies_after_rejected** (either shape).  The watcher is a loop that calls `Reload` at
+every tick of its timer, whatever the previous call returned (`ConfigWatcher.monitor`: the error is
+logged, the loop goes on) — a tick is a `.reload` of the history.  For any history of file contents,
+registrations and earlier ticks — in particular any number of rejected reloads before — a tick at
+which `Reload` goes on with the content on disk leaves that content running, and it notifies every
+listener exactly once if the content differs from what was running and not at all otherwise. -/
+theorem watcher_applies_after_rejected (aw : Bool) (ops : List Seq.Op)
+    (hs : (Seq.run { aw := aw } ops).started = true)
+    (hr : reloadable aw (Seq.run { aw := aw } ops).file = true) :
+    (Seq.run { aw := aw } (ops ++ [.reload])).applied = (Seq.run { aw := aw } ops).file ∧
+    (Seq.run { aw := aw } (ops ++ [.reload])).counts =
+      if (Seq.run { aw := aw } ops).file ≠ (Seq.run { aw := aw } ops).applied
+      then (Seq.run { aw := aw } ops).counts.map (· + 1) else (Seq.run { aw := aw } ops).counts := by
+  have haw : ∀ (s : Seq.St) (o : Seq.Op), (Seq.step s o).1.aw = s.aw := by
+    intro s o
+    cases o <;> simp only [Seq.step] <;> (try split) <;> (try split) <;> try rfl
+    unfold Seq.reload; split <;> (try split) <;> rfl
+  have hawrun : ∀ (l : List Seq.Op) (s : Seq.St), (Seq.run s l).aw = s.aw := by
+    intro l
+    induction l with
+    | nil => intro s; rfl
+    | cons o os ih => intro s; simp only [Seq.run, List.foldl_cons]; exact (ih _).trans (haw s o)
+  generalize hS : Seq.run { aw := aw } ops = S at hs hr ⊢
+  have hSaw : S.aw = aw := by rw [← hS]; exact hawrun ops _
+  have hrun : Seq.run { aw := aw } (ops ++ [.reload]) = (Seq.step S .reload).1 := by
+    rw [← hS]; simp [Seq.run, List.foldl_append]
+  rw [hrun]
+  simp only [Seq.step, hs, if_true]
+  by_cases hc : S.file = S.applied
+  · rw [reload_same S (fun h => h.2 hc)]
+    exact ⟨hc.symm, by simp [hc]⟩
+  · rw [reload_apply S (by rw [hSaw]; exact hr) hc]
+    exact ⟨rfl, by simp [hc]⟩
+
+/-- rejected, rejected, then acceptable: the third tick applies it and notifies once -/
+example : (Seq.run {} [.wc (.ok 1 0), .wr (.ok 1 0), .start 1, .wc (.bad 0 1), .reload, .wc .gone, .reload,
+    .wc (.ok 3 0), .reload]).applied = (.ok 3 0, .ok 1 0) ∧
+  (Seq.run {} [.wc (.ok 1 0), .wr (.ok 1 0), .start 1, .wc (.bad 0 1), .reload, .wc .gone, .reload,
+    .wc (.ok 3 0), .reload]).counts = [1] := by decide
+
 /-! Non-vacuity (kernel-evaluated): a changed valid file is applied and notified once, an unchanged
 one is not re-notified, a rejected one changes nothing, a rules-only change is applied. -/
 example : (Seq.run {} [.wc (.ok 1 0), .wr (.ok 1 0), .start 2, .wc (.ok 2 0), .reload, .reload]).counts = [1, 1] := by decide
